@@ -115,6 +115,12 @@ declarations:
   - decl: static int twice(int x)
   - decl: void rename(const std::string &name)
   - decl: const std::string &name() const
+  - decl: int which() const
+    format:
+      function_suffix: _const
+  - decl: int which()
+    format:
+      function_suffix: _mutable
 - decl: void takes(Cls *c, const Cls &d)
 - decl: Cls *findCls(int id)
 - decl: Cls *newCls(int id) +owner(caller)
@@ -153,6 +159,8 @@ public:
     static int twice(int x);
     void rename(const std::string &name);
     const std::string &name() const;
+    int which() const;
+    int which();
 };
 void takes(Cls *c, const Cls &d);
 Cls *findCls(int id);
@@ -177,6 +185,8 @@ int Cls::add(int x) { vt_txt("RECV Cls::add this="); vt_i(m_id); vt_txt(" x="); 
 int Cls::twice(int x) { vt_txt("RECV Cls::twice x="); vt_i(x); vt_txt("\n"); return 2 * x; }
 void Cls::rename(const std::string &name) { vt_txt("RECV Cls::rename this="); vt_i(m_id); vt_txt(" name="); vt_s(name.data(), (long) name.size()); vt_txt("\n"); m_name = name; }
 const std::string &Cls::name() const { return m_name; }
+int Cls::which() const { vt_txt("RECV Cls::which-const this="); vt_i(m_id); vt_txt("\n"); return 1; }
+int Cls::which() { vt_txt("RECV Cls::which-mutable this="); vt_i(m_id); vt_txt("\n"); return 2; }
 void takes(Cls *c, const Cls &d) { vt_txt("RECV takes c="); vt_i(c->id()); vt_txt(" d="); vt_i(d.id()); vt_txt("\n"); }
 static Cls *lib_objs[2];
 Cls *findCls(int id) { if (!lib_objs[0]) { lib_objs[0] = new Cls(100); lib_objs[1] = new Cls(101); } vt_txt("RECV findCls id="); vt_i(id); vt_txt("\n"); return lib_objs[id % 2]; }
@@ -218,7 +228,7 @@ def scenario_case(args):
     _, NI = namer_for("Cee", naming, "ns_inner_")
     T = P + "Cls"
     d = {"T": T, "P": P, "ctor": NC("ctor", ""), "dtor": NC("dtor", ""), "id": NC("id", ""), "add": NC("add", ""), "twice": NC("twice", ""),
-         "rename": NC("rename", ""), "name": NC("name", ""), "takes": N("takes", ""), "find": N("findCls", ""), "new": N("newCls", ""),
+         "rename": NC("rename", ""), "name": NC("name", ""), "whichc": NC("which", "_const"), "whichm": NC("which", "_mutable"), "takes": N("takes", ""), "find": N("findCls", ""), "new": N("newCls", ""),
          "val": N("valCls", ""), "next": N("nextColor", ""), "over0": N("over", "_0"), "over1": N("over", "_1"), "dflt0": N("dflt", "_0"),
          "dflt1": N("dflt", "_1"), "tint": N("tmpl", "_int"), "tdbl": N("tmpl", "_double"), "order": N("order", ""), "nsf": NN("nsf", ""),
          "innerf": NI("innerf", "")}
@@ -231,6 +241,7 @@ int main(void) {
   printf("OBS twice"); obs_i(%(twice)s(21)); printf("\n");
   %(rename)s(&b, "bee"); %(rename)s(&a, "");
   printf("OBS names"); obs_z(%(name)s(&a)); obs_z(%(name)s(&b)); printf("\n");
+  printf("OBS which"); obs_i(%(whichc)s(&a)); obs_i(%(whichm)s(&b)); obs_i(%(whichc)s(&b)); printf("\n");
   %(takes)s(&a, &b); %(takes)s(&b, &a);
   %(find)s(0, &r); printf("OBS find"); obs_i(%(id)s(&r)); %(find)s(3, &r); obs_i(%(id)s(&r)); printf("\n");
   %(new)s(7, &r); printf("OBS new"); obs_i(%(id)s(&r)); obs_i(%(add)s(&r, 1)); printf("\n"); %(dtor)s(&r);
@@ -246,11 +257,12 @@ int main(void) {
 }
 """ % d
     open(os.path.join(out, "driver.c"), "w").write(drv)
-    exp_obs = ["OBS ids 5 9", "OBS add 8 13 4", "OBS twice 42", "OBS names 0:[] 3:[bee]", "OBS find 100 101", "OBS new 7 8", "OBS val 8",
+    exp_obs = ["OBS ids 5 9", "OBS add 8 13 4", "OBS twice 42", "OBS names 0:[] 3:[bee]", "OBS which 1 2 1", "OBS find 100 101", "OBS new 7 8", "OBS val 8",
                "OBS color 3 4 0", "OBS dflt 32 34", "OBS tmpl 42 " + A.rnd(A.NATIVE["double"], 2.5), "OBS ns 2 3"]
     D = A.NATIVE["double"]
     exp_recv = ["RECV Cls::Cls id=5", "RECV Cls::Cls id=9", "RECV Cls::add this=5 x=3", "RECV Cls::add this=9 x=4", "RECV Cls::add this=5 x=-1",
                 "RECV Cls::twice x=21", "RECV Cls::rename this=9 name=3:[bee]", "RECV Cls::rename this=5 name=0:[]",
+                "RECV Cls::which-const this=5", "RECV Cls::which-mutable this=9", "RECV Cls::which-const this=9",
                 "RECV takes c=5 d=9", "RECV takes c=9 d=5",
                 "RECV Cls::Cls id=100", "RECV Cls::Cls id=101", "RECV findCls id=0", "RECV findCls id=3",
                 "RECV newCls id=7", "RECV Cls::Cls id=7", "RECV Cls::add this=7 x=1", "RECV Cls::~Cls this=7",
